@@ -32,7 +32,7 @@ MANIFEST = {
             "routines are not decided. CodeBlocks holding EXIT/CYCLE/GOTO "
             "are a recorded finding (C28-a).",
     "technique": "MRO-resolved constant tuples + super-chain check + CFG "
-                 "dominance over the lowering method",
+                 "dominance over the lowering method + refusal-weakening check against the reviewed guard snapshot",
 }
 PDT = "psyclone.psyir.transformations.psy_data_trans.PSyDataTrans"
 CONTROL_STMTS = ("Exit_Stmt", "Cycle_Stmt", "Goto_Stmt", "Return_Stmt",
